@@ -599,6 +599,11 @@ pub fn eval_row(e: &BExpr, schema: &TableSchema, row: &Row) -> Option<bool> {
 // ---------------------------------------------------------------------------
 // seeds -> values
 
+thread_local! {
+    /// when set, float columns also receive NaN and -0.0 (only for checks whose oracle is metamorphic)
+    pub static NAN_MODE: std::cell::Cell<bool> = const { std::cell::Cell::new(false) };
+}
+
 /// Deterministic, collision-friendly value for a column type from a small seed.
 /// seed 0 is NULL when the column is nullable.
 pub fn val_from_seed(ty: ColType, nullable: bool, seed: u16) -> Val {
@@ -613,8 +618,17 @@ pub fn val_from_seed(ty: ColType, nullable: bool, seed: u16) -> Val {
             Val::S(POOL[(seed as usize / 2) % POOL.len()].to_string())
         }
         ColType::F32 | ColType::F64 => {
-            const POOL: [f64; 14] = [0.0, 1.0, -1.0, 0.5, 2.5, -0.0, 3.0, 100.25, -7.75, f64::INFINITY, f64::NEG_INFINITY, f64::NAN, 1e10, 4.0];
-            let x = POOL[(seed as usize / 2) % POOL.len()];
+            // NaN and -0.0 are generated only where the oracle is metamorphic (see val_from_seed_nan): the reference
+            // semantics of comparisons involving them differ between engines
+            const POOL: [f64; 12] = [0.0, 1.0, -1.0, 0.5, 2.5, 3.0, 100.25, -7.75, f64::INFINITY, f64::NEG_INFINITY, 1e10, 4.0];
+            let mut x = POOL[(seed as usize / 2) % POOL.len()];
+            if NAN_MODE.with(|m| m.get()) {
+                if seed % 11 == 5 {
+                    x = f64::NAN;
+                } else if seed % 11 == 6 {
+                    x = -0.0;
+                }
+            }
             Val::f(if ty == ColType::F32 { (x as f32) as f64 } else { x })
         }
         _ => {
